@@ -286,6 +286,14 @@ def showCppOut (op : Cpp.CppOp) (o : Cpp.Out) : String :=
 def cppLine (st : State) (w : List String) : State × String :=
   match w with
   | ["overloads", _] => (st, "ok")      -- which of two equivalent overloads the harness calls
+  | ["read_string_ioerr", p, t] =>
+    -- Config::readString of a text that includes a file which opens but whose read fails: FileIOException
+    match unhex p, unhex t with
+    | some p, some t =>
+      let r := readWithFailingFile st.world st.cfg (.string t) p [] readFuel
+      let out : Cpp.Out := { res := Cpp.throwIfError r.cfg, freed := r.dtorLog }
+      (st.withCfg r.cfg, showCppOut (.read (.string t)) out)
+    | _, _ => (st, "bad-op")
   | ["init_multi"] =>
     -- a subclass of Config whose evaluateIncludePath is the harness's multi-path function (include function 1)
     let (st', o) := Cpp.cppStep st .init
@@ -636,6 +644,19 @@ def stepLine (st : State) (w : List String) : State × String :=
         (st', showOut op o)
       | _, _ => (st, "bad-op")
     | _, _ => (st, "bad-op")
+  | ["add_alias", pp, sp, kind, ty] =>
+    -- config_setting_add(parent, <name or string value of another setting>, ty): the argument is copied, so the
+    -- call is an ordinary addition under those bytes
+    match parsePath pp, parsePath sp, ty.toInt? with
+    | some ppath, some spath, some ty =>
+      match c.root.get? spath with
+      | some n =>
+        let nm := if kind == "name" then n.name else (if n.ty == T_STRING then n.sval else none)
+        let op := Op.add ppath nm ty
+        let (st', o) := step st op
+        (st', showOut op o)
+      | none => (st, "bad-op")
+    | _, _, _ => (st, "bad-op")
   | ["hold", k, kind, p] =>
     match k.toNat?, parsePath p with
     | some k, some path =>
